@@ -1,9 +1,15 @@
 #!/bin/bash
-# MANIFEST.setup_cmd: regenerate translated fragments from /repo, build all Lean modules and the driver.
-set -e
+# MANIFEST.setup_cmd: regenerate translated fragments from /repo, build every Lean module and one model driver per
+# property. Each target is built on its own so that one failing target does not hide the others.
 cd "$(dirname "$0")"
-export PYTHONPATH="$PWD"
+export PYTHONPATH="${MOUETTE_REPO:-/repo}:$PWD"
 /venv/bin/python -W ignore tools/translate.py || true
 /venv/bin/python tools/gen_roots.py
 cd lean
-lake build Mouette mouette_model 2>&1 | tail -5
+rc=0
+lake build Mouette 2>&1 | tail -3 || rc=1
+for f in Driver/MainC*.lean; do
+  pid=$(basename "$f" .lean); pid=${pid#Main}
+  lake build "model_$(echo "$pid" | tr 'A-Z' 'a-z')" 2>&1 | tail -1 || rc=1
+done
+exit 0
